@@ -54,7 +54,7 @@ def run(tier):
             ("E4", ["s1", "s2", "s3"], ["f1"], [], 1, [1], 1,
              ["create", "destroy", "malloc", "free", "xlate", "invoke"], "reset 3 1 0")]
     # owners that outlive their incarnation next to owners of the new one (same function)
-    cfgs.append(("E5", ["s1"], ["f1"], ["o1", "o2"], 2, [1], 2,
+    cfgs.append(("E5", ["s1"], ["f1", "f2"], ["o1", "o2"], 2, [1], 2,
                  ["create", "destroy", "register", "unregister", "odestroy", "probe"], "reset 1 2 0"))
     if thorough:
         cfgs.append(("E1", ["s1", "s2"], ["f1"], ["o1"], 1, [1, 2], 2, LIFE, "reset 2 1 0"))
